@@ -67,6 +67,7 @@ type Kernel struct {
 	lastBusy  time.Duration
 	idleFn    func(ev *Event) bool
 	halfNow   time.Duration
+	rootGoid  uint64
 	pairs     map[string]struct{}
 	lastPoint string
 	anon      int
@@ -170,6 +171,7 @@ var advanceQuanta = []time.Duration{time.Millisecond, 50 * time.Millisecond, 250
 
 func NewKernel(tape *Tape) *Kernel {
 	k := &Kernel{
+		rootGoid:      runtime.SimGoid(),
 		tape:          tape,
 		start:         time.Now(),
 		arrival:       make(chan struct{}, 1),
@@ -237,6 +239,14 @@ func (k *Kernel) Note(actor, point string, args ...any) {
 }
 
 func (k *Kernel) Violate(prop, oracle, sig, detail string) {
+	if k.off.Load() && runtime.SimGoid() != k.rootGoid {
+		// the run is over and the hooks pass through (teardown): what simulated actors observe while everything is being
+		// released un-scheduled is not a judgement about the system
+		k.mu.Lock()
+		k.Probes["judgements-skipped-during-teardown"]++
+		k.mu.Unlock()
+		return
+	}
 	k.Violations = append(k.Violations, Violation{Property: prop, Oracle: oracle, Signature: sig, Detail: detail, Step: k.step, T: int64(k.Now())})
 }
 
